@@ -28,7 +28,7 @@ theorem Stat.sub {K : SCtx} {k : Ctx} {sub : Bool} (h : Stat K k sub)
 theorem Dyn.sub {K : SCtx} {k : Ctx} {sub : Bool} {s : St} (hst : Stat K k sub) (h : Dyn K k sub s)
     (hne : K.e = true → K.ign = false ∧ K.unk = false) (out : Str) :
     Dyn (subK K.e) { k with depth := 0 } true (subshellOf s out) :=
-  ⟨rfl, fun _ => rfl, h.fok, rfl,
+  ⟨rfl, ⟨fun _ => rfl, rfl⟩, h.fok, rfl,
     fun he => (hst.knign he (hne he).1 (hne he).2).symm, h.noe,
     fun h' => by simp [subK] at h', fun h' => by simp [subK] at h'⟩
 
@@ -62,7 +62,7 @@ theorem sim_subrun {n : Nat} (hS : SimS n) {K : SCtx} {k : Ctx} {sub : Bool} {s 
     | norm =>
       obtain ⟨h1, h2, _, h4, _⟩ := hp
       subst h1
-      have htn : (absEnvC r2).trapExit = .nil := h2.csub rfl
+      have htn : (absEnvC r2).trapExit = .nil := h2.csub.1 rfl
       simp only [htn, sem_trap_nil hn1, SubRel]
       exact ⟨trivial, rfl, rfl, h4.1⟩
     | brk m =>
@@ -76,7 +76,7 @@ theorem sim_subrun {n : Nat} (hS : SimS n) {K : SCtx} {k : Ctx} {sub : Bool} {s 
       simp [subK] at hfn
     | exit =>
       obtain ⟨_, hr', hs', ho, ht, hcs, _, _, _⟩ := hp
-      have htn : e1.trapExit = .nil := by rw [ht]; exact hcs rfl
+      have htn : e1.trapExit = .nil := by rw [ht]; exact hcs.1 rfl
       simp only [htn, sem_trap_nil hn1, SubRel]
       exact ⟨trivial, hs', ho, hr'⟩
 
